@@ -3,12 +3,10 @@ package c02
 
 import (
 	"bytes"
-	"errors"
 	"fmt"
 	"sync/atomic"
 	"testing"
 
-	"github.com/libsv/go-bt/v2"
 	"github.com/libsv/go-bt/v2/sighash"
 	"pgregory.net/rapid"
 
@@ -111,17 +109,17 @@ func check(ctx *pbt.Ctx, c Case) error {
 			case !inRange:
 				sawErrIdx = true
 				errCalls.Add(1)
-				if !errors.Is(perr, bt.ErrInputNoExist) {
-					return fmt.Errorf("CalcInputPreimage(idx=%d of %d inputs, type=0x%02x) = (%s, %v), want ErrInputNoExist", idx, n, ht, clip(pre), perr)
+				if perr == nil {
+					return fmt.Errorf("CalcInputPreimage(idx=%d of %d inputs, type=0x%02x) = (%s, %v), want an error", idx, n, ht, clip(pre), perr)
 				}
-				if !errors.Is(herr, bt.ErrInputNoExist) {
-					return fmt.Errorf("CalcInputSignatureHash(idx=%d of %d inputs, type=0x%02x) = (%x, %v), want ErrInputNoExist", idx, n, ht, sh, herr)
+				if herr == nil {
+					return fmt.Errorf("CalcInputSignatureHash(idx=%d of %d inputs, type=0x%02x) = (%x, %v), want an error", idx, n, ht, sh, herr)
 				}
 			case len(m.In[idx].TxID) == 0 || m.In[idx].PrevNil:
 				errCalls.Add(1)
 				noID, noScript := len(m.In[idx].TxID) == 0, m.In[idx].PrevNil
 				ok := func(e error) bool {
-					return (noID && errors.Is(e, bt.ErrEmptyPreviousTxID)) || (noScript && errors.Is(e, bt.ErrEmptyPreviousTxScript))
+					return e != nil // "is reported as an error": which sentinel, wrapped or not, is not fixed by the statement (benign round 2)
 				}
 				if noID {
 					sawErrTxID = true
@@ -130,10 +128,10 @@ func check(ctx *pbt.Ctx, c Case) error {
 					sawErrScript = true
 				}
 				if !ok(perr) {
-					return fmt.Errorf("CalcInputPreimage(idx=%d, type=0x%02x) = (%s, %v) for an input with missing txid=%v / missing previous script=%v; want the matching sentinel error", idx, ht, clip(pre), perr, noID, noScript)
+					return fmt.Errorf("CalcInputPreimage(idx=%d, type=0x%02x) = (%s, %v) for an input with missing txid=%v / missing previous script=%v; want an error", idx, ht, clip(pre), perr, noID, noScript)
 				}
 				if !ok(herr) {
-					return fmt.Errorf("CalcInputSignatureHash(idx=%d, type=0x%02x) = (%x, %v) for an input with missing txid=%v / missing previous script=%v; want the matching sentinel error", idx, ht, sh, herr, noID, noScript)
+					return fmt.Errorf("CalcInputSignatureHash(idx=%d, type=0x%02x) = (%x, %v) for an input with missing txid=%v / missing previous script=%v; want an error", idx, ht, sh, herr, noID, noScript)
 				}
 			case anyNoTxID >= 0:
 				// another input has no previous txid: the specification does not say what
@@ -201,8 +199,8 @@ func check(ctx *pbt.Ctx, c Case) error {
 		if panicked != nil {
 			return fmt.Errorf("input slot %d of %d is empty (nil): the hash functions panicked instead of reporting the missing input: %v", idx, n, panicked)
 		}
-		if !errors.Is(perr, bt.ErrInputNoExist) || !errors.Is(herr, bt.ErrInputNoExist) {
-			return fmt.Errorf("input slot %d of %d is empty (nil): CalcInputPreimage err=%v, CalcInputSignatureHash err=%v, want ErrInputNoExist", idx, n, perr, herr)
+		if perr == nil || herr == nil {
+			return fmt.Errorf("input slot %d of %d is empty (nil): CalcInputPreimage err=%v, CalcInputSignatureHash err=%v, want an error", idx, n, perr, herr)
 		}
 		ctx.Label("err_empty_slot")
 	}
